@@ -62,6 +62,7 @@ func cmpEqualGuard(accept func(cmp *ssa.Call) bool) condMatch {
 }
 
 func runC10(r *Run) {
+	defer importProcessLocal(r, "RM", "x/erc20")
 	P := r.P
 	r.Rule("R1", "PATH+FLOW.pairing: per conversion function, every success exit is preceded by all tabled events (error-checked) and guards; amounts derive from the message's amount field; in convertERC20NativeToken the escrow comparison precedes MintCoins")
 	r.Rule("R2", "OWN.erc20-mint: MintCoins/BurnCoins(…,\"erc20\",…) only in convertERC20NativeToken (mint), convertCoinNativeERC20 (burn) and PostTxProcessing (mint)")
